@@ -423,6 +423,20 @@ func checkProbe(run, name string, p probe, toks []Tok, wantOut *string) string {
 			return m
 		}
 	}
+	// and nothing that was NOT given: no further positional parameter, no named
+	// parameter of the file's defaults that the effective parameters do not contain
+	for i := len(pos) + 1; i <= 9; i++ {
+		if vs, ok := p[strconv.Itoa(i)]; ok {
+			return fmt.Sprintf("%s: step/handler %q sees $%d = %q although only %d parameter(s) were given", run, name, i, abbreviate(vs[0]), len(pos))
+		}
+	}
+	for _, n := range paramNames {
+		if _, given := named[n]; !given {
+			if vs, ok := p[n]; ok {
+				return fmt.Sprintf("%s: step/handler %q sees $%s = %q although no parameter of that name was given", run, name, n, abbreviate(vs[0]))
+			}
+		}
+	}
 	return ""
 }
 
